@@ -174,6 +174,14 @@ pub struct ReplayFile {
     pub minimised_size: usize,
     pub shrink_executions: u64,
     pub plan: Value,
+    /// run indices (of the same batch: master seed, engine, tier) that must be executed
+    /// in the same process before `plan` for the violation to show: non-empty when the
+    /// outcome of a run depends on what the process did earlier (state leaking between
+    /// contexts / runs inside the code under test)
+    #[serde(default)]
+    pub history: Vec<u64>,
+    #[serde(default)]
+    pub tier: String,
 }
 
 #[derive(Serialize, Deserialize, Clone, Debug, Default)]
@@ -306,6 +314,8 @@ pub fn worker<E: Engine>(
     };
     let mut sigs: BTreeSet<u64> = BTreeSet::new();
     let mut classes_seen: BTreeSet<String> = BTreeSet::new();
+    // run indices executed in this process so far, in order
+    let mut history: Vec<u64> = Vec::new();
     let mut index = first;
     while index < limit {
         let seed = run_seed(master_seed, E::NAME, index);
@@ -341,37 +351,63 @@ pub fn worker<E: Engine>(
                 .samples
                 .push(json!({"run": index, "seed": seed, "plan": engine.sample(&plan)}));
         }
+        let mut taint = rec.tainted;
         if let Some(v) = &rec.violation {
             report.violating_runs += 1;
             let class = v.class();
             if classes_seen.insert(class.clone()) && classes_seen.len() <= 4 {
                 let original_size = engine.plan_size(&plan);
-                // no shrinking in a tainted process: later executions would not be trustworthy
-                let budget = if rec.tainted { 0 } else { 600 };
-                let (min_plan, shrink_executions) = if budget == 0 { (plan.clone(), 0) } else { shrink(&mut engine, plan.clone(), &class, budget) };
-                let detail = if rec.tainted {
-                    v.detail.clone()
-                } else {
-                    let rec2 = execute_guarded(&mut engine, &min_plan, false);
-                    rec2.violation.as_ref().map(|v| v.detail.clone()).unwrap_or_else(|| v.detail.clone())
-                };
-                report.violations.push(ReplayFile {
+                let mut file = ReplayFile {
                     engine: E::NAME.to_string(),
                     property: E::PROPERTY.to_string(),
-                    class,
-                    detail,
+                    class: class.clone(),
+                    detail: v.detail.clone(),
                     master_seed,
                     run_index: index,
                     run_seed: seed,
                     original_size,
-                    minimised_size: engine.plan_size(&min_plan),
-                    shrink_executions,
-                    plan: serde_json::to_value(&min_plan).unwrap_or(Value::Null),
-                });
+                    minimised_size: original_size,
+                    shrink_executions: 0,
+                    plan: serde_json::to_value(&plan).unwrap_or(Value::Null),
+                    history: Vec::new(),
+                    tier: tier.name().to_string(),
+                };
+                if rec.tainted {
+                    // no shrinking in a tainted process: later executions would not be trustworthy
+                    report.violations.push(file);
+                } else if class_in_fresh_process(&file).as_deref() == Some(class.as_str()) {
+                    let (min_plan, shrink_executions) = shrink(&mut engine, plan.clone(), &class, 600);
+                    let rec2 = execute_guarded(&mut engine, &min_plan, false);
+                    if let Some(v2) = &rec2.violation {
+                        file.detail = v2.detail.clone();
+                    }
+                    file.minimised_size = engine.plan_size(&min_plan);
+                    file.shrink_executions = shrink_executions;
+                    file.plan = serde_json::to_value(&min_plan).unwrap_or(Value::Null);
+                    report.violations.push(file);
+                } else {
+                    // The same Plan does not fail in a fresh process: what this process did
+                    // before matters. Keep the history, minimise it, and retire the process.
+                    file.history = history.clone();
+                    if class_in_fresh_process(&file).as_deref() == Some(class.as_str()) {
+                        let (h, trials) = shrink_history(&file, &class);
+                        file.history = h;
+                        file.shrink_executions = trials;
+                        file.minimised_size = original_size + file.history.len();
+                        file.detail = format!("{} [only when {} earlier runs of the batch are executed in the same process first: state leaks between contexts/runs]", file.detail, file.history.len());
+                        report.violations.push(file);
+                    } else {
+                        // not even with its history: leave it to the driver to call that out
+                        file.history.clear();
+                        report.violations.push(file);
+                    }
+                    taint = true;
+                }
             }
         }
+        history.push(index);
         index += stride;
-        if rec.tainted {
+        if taint {
             report.resume_at = Some(index);
             break;
         }
@@ -389,7 +425,16 @@ pub fn worker<E: Engine>(
 
 /// Replay a plan in this process. Returns the violation, if any, after printing the log.
 pub fn replay<E: Engine>(file: &ReplayFile, verbose: bool) -> Option<Violation> {
-    let mut engine = E::new(Tier::Quick);
+    let tier = Tier::parse(&file.tier).unwrap_or(Tier::Quick);
+    let mut engine = E::new(tier);
+    if !file.history.is_empty() {
+        println!("executing {} earlier runs of the batch in this process first", file.history.len());
+        for index in &file.history {
+            let seed = run_seed(file.master_seed, E::NAME, *index);
+            let plan = engine.generate(*index, seed, tier);
+            let _ = execute_guarded(&mut engine, &plan, false);
+        }
+    }
     let plan: E::Plan = match serde_json::from_value(file.plan.clone()) {
         Ok(p) => p,
         Err(e) => {
@@ -425,5 +470,65 @@ pub fn plan_of<E: Engine>(tier: Tier, master_seed: u64, index: u64) -> ReplayFil
         minimised_size: size,
         shrink_executions: 0,
         plan: serde_json::to_value(&plan).unwrap_or(Value::Null),
+        history: Vec::new(),
+        tier: tier.name().to_string(),
     }
+}
+
+/// Replay a file in a fresh process (through `sim replay`, which puts the execution in
+/// a child of its own); the class of the violation it reports, if any
+pub fn class_in_fresh_process(file: &ReplayFile) -> Option<String> {
+    static COUNTER: std::sync::atomic::AtomicU64 = std::sync::atomic::AtomicU64::new(0);
+    let n = COUNTER.fetch_add(1, std::sync::atomic::Ordering::Relaxed);
+    let path = crate::util::scratch_base().join(format!("probe-{}-{}.json", std::process::id(), n));
+    std::fs::write(&path, serde_json::to_string(file).ok()?).ok()?;
+    let out = std::process::Command::new(std::env::current_exe().ok()?)
+        .arg("replay")
+        .arg(&path)
+        .arg("--quiet")
+        .env("RUST_BACKTRACE", "0")
+        .stderr(std::process::Stdio::null())
+        .output();
+    let _ = std::fs::remove_file(&path);
+    let out = out.ok()?;
+    if out.status.code() != Some(1) {
+        return None;
+    }
+    String::from_utf8_lossy(&out.stdout).lines().find_map(|l| l.strip_prefix("class=").map(|c| c.to_string()))
+}
+
+/// ddmin over the history of a history-dependent violation, each trial in a fresh process
+fn shrink_history(file: &ReplayFile, class: &str) -> (Vec<u64>, u64) {
+    let started = std::time::Instant::now();
+    let mut best = file.history.clone();
+    let mut trials = 0u64;
+    let mut chunks = 2usize;
+    while best.len() >= 2 && trials < 60 && started.elapsed().as_secs() < 120 {
+        let size = best.len().div_ceil(chunks);
+        let mut reduced = false;
+        let mut start = 0;
+        while start < best.len() {
+            let end = (start + size).min(best.len());
+            let mut cand = file.clone();
+            cand.history = [&best[..start], &best[end..]].concat();
+            trials += 1;
+            if class_in_fresh_process(&cand).as_deref() == Some(class) {
+                best = cand.history;
+                chunks = chunks.saturating_sub(1).max(2);
+                reduced = true;
+                break;
+            }
+            if trials >= 60 || started.elapsed().as_secs() >= 120 {
+                break;
+            }
+            start = end;
+        }
+        if !reduced {
+            if chunks >= best.len() {
+                break;
+            }
+            chunks = (chunks * 2).min(best.len());
+        }
+    }
+    (best, trials)
 }
